@@ -4,7 +4,8 @@ pub mod c08;
 pub mod c09;
 pub mod c10;
 pub mod c12;
+pub mod c13;
 
 pub fn all() -> Vec<Property> {
-    vec![c08::property(), c09::property(), c10::property(), c12::property()]
+    vec![c08::property(), c09::property(), c10::property(), c12::property(), c13::property()]
 }
